@@ -207,7 +207,7 @@ func (a *errsArea) renderAll(e *errs.Error) string {
 }
 
 var creatorIDs = map[string]int{"main.mkNew": 1, "main.mkNewf": 2, "main.mkCause": 3, "main.mkCausef": 4, "main.mkWrap": 5,
-	"main.mkWrapTyped": 6, "main.mkAppend": 7}
+	"main.mkWrapTyped": 6, "main.mkAppend": 7, "main.doPanic": 8, "main.mkLog": 9}
 
 var frameLine = regexp.MustCompile(`^    \[(.+)\] .+:[0-9]+$`)
 
@@ -250,7 +250,8 @@ func (a *errsArea) canon(text string, e *errs.Error) (string, string) {
 		creator := "?"
 		for ; i < len(lines) && frameLine.MatchString(lines[i]); i++ {
 			fn := frameLine.FindStringSubmatch(lines[i])[1]
-			if creator == "?" && !strings.HasPrefix(fn, "github.com/richardwilkes/toolbox/errs.") {
+			// (errors made inside errs.Recovery have runtime.gopanic between the library and the panicking function)
+			if creator == "?" && !strings.HasPrefix(fn, "github.com/richardwilkes/toolbox/errs.") && !strings.HasPrefix(fn, "runtime.") {
 				creator = fn
 				if id, ok := creatorIDs[fn]; ok {
 					creator = strconv.Itoa(id)
@@ -296,11 +297,15 @@ func (a *errsArea) rendering(e *errs.Error) (string, string) {
 	return " R:" + hx.Hex([]byte(s)) + ":" + q + ":" + hx.Hex([]byte(v)), ""
 }
 
-// register remembers which harness function created the stacks that appear for the first time in the value.
+// register remembers which harness function created the stacks that appear for the first time in the value.  A call
+// that creates an error AND its cause (Recovery with a non-error panic value) captured the cause's stack first.
 func (a *errsArea) register(v error, creator string) {
 	e, ok := v.(*errs.Error)
 	if !ok || e == nil || creator == "" {
 		return
+	}
+	if c, ok2 := errors.Unwrap(e).(*errs.Error); ok2 && c != nil && creator == "doPanic" {
+		a.register(c, creator)
 	}
 	for _, w := range e.WrappedErrors() {
 		if we, ok2 := w.(*errs.Error); ok2 && we != nil {
@@ -477,6 +482,56 @@ func (a *errsArea) exec(line string) string {
 		if e, ok := a.get(args[0]).(*errs.Error); ok {
 			res = e.ErrorOrNil()
 		}
+	case f[2] == "is" && len(args) == 2:
+		// errors.Is(a, b); the value itself is the result
+		res = a.get(args[0])
+		a.vars[k] = res
+		out := "skip"
+		if t := a.get(args[1]); !isSkipped(t) {
+			out = isOutcome(res, t)
+		}
+		return a.dump() + " IS:" + out
+	case f[2] == "as" && len(args) == 1:
+		var ep *errs.Error
+		if v := a.get(args[0]); v != nil && errors.As(v, &ep) {
+			res = ep
+		}
+	case f[2] == "recover" && len(args) == 3: // the third argument (the measured message) is for the model
+		// recover <mode> <var | hex>: a panic with an error value (mode err, nohandler, badhandler), with a string (str),
+		// or no panic at all (none) under errs.Recovery; the result is what the handler received
+		var pv any
+		switch args[0] {
+		case "str":
+			pv = string(hx.UnHex(args[1]))
+		case "none":
+		default:
+			if v := a.get(args[1]); v != nil {
+				pv = v
+			}
+		}
+		mode := args[0]
+		if pv == nil {
+			mode = "none" // panic(nil) is a runtime.PanicNilError of its own: not exercised here
+		}
+		got, called, escaped := runRecovery(pv, mode)
+		res, creator = got, "doPanic"
+		a.vars[k] = res
+		a.register(res, creator)
+		flag := "0"
+		if called {
+			flag = "1"
+		}
+		if escaped {
+			flag = "escaped"
+		}
+		return a.dump() + " RC:" + flag
+	case f[2] == "log" && len(args) == 2:
+		var rec string
+		res, rec = logged(hx.Atoi(args[1]), a.get(args[0]))
+		creator = "mkLog"
+		a.vars[k] = res
+		a.register(res, creator)
+		return a.dump() + " L:" + rec
 	case f[2] == "clone" && len(args) == 2:
 		if e, ok := a.get(args[0]).(*errs.Error); ok && e != nil {
 			res = e.CloneWithPrefixMessage(string(hx.UnHex(args[1])))
